@@ -1,1 +1,693 @@
-/- C17 — property theorems (stub: not built yet). -/
+/-
+C17 — Full-LN generation keeps every note and fills gaps by the stated rule.
+
+Property theorems about the executable model `Reamber/Model/FullLN.lean` (tied to
+reamber/algorithms/generate/full_ln.py, Map.stack and TimedList.from_dict by the correspondence check of
+`harness/props/c17.py` on every run) against the declarative `Spec` of `Reamber/Spec/FullLN.lean`.
+
+Main statement (`fullLn_spec`): for EVERY sorting function (any sorted permutation — numpy's quicksort is not
+stable), every gap and threshold, every chart without further HitList/HoldList-typed lists (`extras = []`,
+known finding D23) whose game's declared defaults are scalars or which has no note (known finding D24), the
+model returns a chart whose notes satisfy `Spec` and whose other parts are untouched.  Everything the
+property lists follows from `Spec` alone (so it also holds for every implementation output accepted by
+`specB`, `specB_sound`): `Spec.conservation`, `Spec.length_eq`, `ColRule.nonlast` / `ColRule.last` /
+`expected_hold` / `expected_hit` (the rule), `Spec.last_kept`, `Spec.no_overlap`.  `specB_iff`: the executable
+check is exactly `Spec`.  `fullLnRows_eq_of_same_last`: the tie order matters only through the last note of a column.
+-/
+import Reamber.Lemmas.FullLN
+import Reamber.Generated.FullLN
+
+namespace Reamber.FullLN
+
+/-- Tie to the source: default arguments of `full_ln`, the lists `m.stack((HitList, HoldList))` picks up per
+map class, and whether `from_dict` can fill the declared defaults — as read from the code by
+`harness/translators/fullln.py`.  Re-checked whenever they change. -/
+theorem consts_tie :
+    defaultGap = Generated.FullLN.defaultGap ∧ defaultThres = Generated.FullLN.defaultThres ∧
+    games.map (fun g => (g.name, g.extraLists, g.scalarDefaults)) = Generated.FullLN.games := by
+  decide +kernel
+
+/-- what is assumed of `sort_values(["offset"])`: *some* permutation in ascending order of time -/
+structure SortsByOffset (sortF : List Row → List Row) : Prop where
+  perm : ∀ l, (sortF l).Perm l
+  sorted : ∀ l, SortedByOffset (sortF l)
+
+/-- the model's own (stable) sort is one -/
+theorem sortByOffset_sorts : SortsByOffset sortByOffset := ⟨sortByOffset_perm, sortByOffset_sorted⟩
+
+/-! ### the produced rows satisfy the statement, for every sorted arrangement of the stacked frame -/
+
+theorem fullLnRows_spec (gap thr : Rat) (inp arr : List Row) (hp : arr.Perm inp) (hs : SortedByOffset arr) :
+    Spec gap thr inp (fullLnRows gap thr arr) := by
+  intro c
+  refine ⟨inColumn c arr, hp.filter _, List.Pairwise.filter _ hs, applyRule gap thr (inColumn c arr), ?_,
+    colRule_applyRule gap thr _⟩
+  rw [inColumn_fullLnRows]
+
+theorem Spec.of_perm_out {gap thr : Rat} {inp out out' : List Row} (h : Spec gap thr inp out)
+    (hp : out'.Perm out) : Spec gap thr inp out' := by
+  intro c
+  obtain ⟨col, h1, h2, o, h3, h4⟩ := h c
+  exact ⟨col, h1, h2, o, h3.trans (hp.filter _).symm, h4⟩
+
+/-! ### from `Spec` alone: conservation -/
+
+theorem count_map_key_inColumn (t : Rat) (c : Int) (l : List Row) :
+    ((inColumn c l).map key).count (t, c) = (l.map key).count (t, c) := by
+  induction l with
+  | nil => simp [inColumn]
+  | cons r rs ih =>
+    simp only [inColumn] at ih ⊢
+    by_cases hc : r.column = c
+    · have : (r.column == c) = true := by simpa using hc
+      simp only [List.filter_cons, this, if_true, List.map_cons, List.count_cons, ih]
+    · have hb : (r.column == c) = false := by simpa using hc
+      have hk : (key r == (t, c)) = false := by
+        simp only [key, beq_eq_false_iff_ne, ne_eq, Prod.mk.injEq, not_and]
+        intro _; exact hc
+      simp only [List.filter_cons, hb, List.map_cons, List.count_cons, hk]
+      simpa using ih
+
+/-- **conservation**: the result has one note per input note at the same time and column -/
+theorem Spec.conservation {gap thr : Rat} {inp out : List Row} (h : Spec gap thr inp out) :
+    (out.map key).Perm (inp.map key) := by
+  rw [List.perm_iff_count]
+  rintro ⟨t, c⟩
+  obtain ⟨col, h1, _, o, h3, h4⟩ := h c
+  rw [← count_map_key_inColumn t c out, ← count_map_key_inColumn t c inp]
+  have ho := colRule_unique gap thr col o h4
+  have hk : ((inColumn c out).map key).Perm ((inColumn c inp).map key) := by
+    have e1 : ((inColumn c out).map key).Perm (o.map key) := (h3.map key).symm
+    have e2 : o.map key = col.map key := by rw [ho, applyRule_map_key]
+    exact e1.trans (e2 ▸ (h1.map key))
+  exact hk.count_eq _
+
+/-- the note count is preserved -/
+theorem Spec.length_eq {gap thr : Rat} {inp out : List Row} (h : Spec gap thr inp out) :
+    out.length = inp.length := by
+  have := h.conservation.length_eq
+  simpa using this
+
+/-! ### the rule, position by position (what `ColRule` says, spelled out) -/
+
+/-- every note but the last becomes what `expected` says with respect to the next note of its column -/
+theorem ColRule.nonlast {gap thr : Rat} {col o : List Row} (h : ColRule gap thr col o) (i : Nat)
+    (hi : i + 1 < col.length) :
+    o[i]? = some (expected gap thr (col[i]'(by omega)) (col[i+1]'hi).offset) := by
+  rw [h.2 i (by omega)]
+  simp [expectedAt, List.getElem?_eq_getElem hi, List.getElem?_eq_getElem (show i < col.length by omega)]
+
+/-- the last note of the column keeps its kind and length -/
+theorem ColRule.last {gap thr : Rat} {col o : List Row} (h : ColRule gap thr col o) :
+    o.getLast? = col.getLast? := by
+  rw [List.getLast?_eq_getElem?, List.getLast?_eq_getElem?, h.1]
+  cases hc : col.length with
+  | zero =>
+    have : o.length = 0 := by rw [h.1, hc]
+    simp [List.length_eq_zero_iff.mp this, List.length_eq_zero_iff.mp hc]
+  | succ n =>
+    have hn : n < col.length := by omega
+    rw [show n + 1 - 1 = n by omega, h.2 n hn]
+    have hnone : col[n+1]? = none := List.getElem?_eq_none (by omega)
+    simp [expectedAt, List.getElem?_eq_getElem hn, hnone]
+
+/-- a generated hold ends exactly `gap` before the next note and is at least `thr` long … -/
+theorem expected_hold {gap thr : Rat} {r : Row} {n l : Rat} (h : (expected gap thr r n).length = some l) :
+    r.offset + l + gap = n ∧ thr ≤ l := by
+  unfold expected at h
+  split at h
+  · rename_i hle
+    have : n - r.offset - gap = l := by simpa using h
+    subst this
+    refine ⟨?_, hle⟩
+    grind
+  · simp at h
+
+/-- … and a hit is produced exactly when that would leave less than the threshold -/
+theorem expected_hit {gap thr : Rat} {r : Row} {n : Rat} :
+    (expected gap thr r n).length = none ↔ n - r.offset - gap < thr := by
+  unfold expected
+  split
+  · rename_i hle
+    simp only [reduceCtorEq, false_iff]
+    exact Rat.not_lt.mpr hle
+  · rename_i hle
+    simp only [true_iff]
+    exact Rat.not_le.mp hle
+
+/-! ### from `Spec` alone: the last note of every column survives unchanged -/
+
+theorem sorted_le_getLast {col : List Row} (hs : SortedByOffset col) (hne : col ≠ []) :
+    ∀ x ∈ col, x.offset ≤ (col.getLast hne).offset := by
+  intro x hx
+  have hsplit := List.dropLast_concat_getLast hne
+  rw [← hsplit] at hx hs
+  rcases List.mem_append.mp hx with hx | hx
+  · exact (List.pairwise_append.mp hs).2.2 x hx _ (by simp)
+  · have : x = col.getLast hne := by simpa using hx
+    rw [this]; exact Rat.le_refl
+
+/-- **last_kept**: in every non-empty column some input note of the latest time is in the result unchanged -/
+theorem Spec.last_kept {gap thr : Rat} {inp out : List Row} (h : Spec gap thr inp out) (c : Int)
+    (hne : inColumn c inp ≠ []) :
+    ∃ r ∈ inp, r.column = c ∧ (∀ r' ∈ inp, r'.column = c → r'.offset ≤ r.offset) ∧ r ∈ out := by
+  obtain ⟨col, h1, h2, o, h3, h4⟩ := h c
+  have hcol : col ≠ [] := by
+    intro he; subst he
+    exact hne (List.perm_nil.mp h1.symm ▸ rfl)
+  have hlast : col.getLast hcol ∈ col := List.getLast_mem hcol
+  have hin : col.getLast hcol ∈ inColumn c inp := h1.mem_iff.mp hlast
+  have hin' := List.mem_filter.mp hin
+  refine ⟨col.getLast hcol, hin'.1, by simpa using hin'.2, ?_, ?_⟩
+  · intro r' hr' hc'
+    have : r' ∈ inColumn c inp := List.mem_filter.mpr ⟨hr', by simpa using hc'⟩
+    exact sorted_le_getLast h2 hcol r' (h1.mem_iff.mpr this)
+  · have ho : o.getLast? = some (col.getLast hcol) := by
+      rw [h4.last, List.getLast?_eq_some_getLast hcol]
+    have : col.getLast hcol ∈ o := List.mem_of_getLast? ho
+    exact (List.mem_filter.mp (h3.mem_iff.mp this)).1
+
+/-! ### from `Spec` alone: no hold reaches a later note of its column -/
+
+theorem sorted_index_lt {col : List Row} (hs : SortedByOffset col) {i j : Nat} (hi : i < col.length)
+    (hj : j < col.length) (hlt : col[i].offset < col[j].offset) : i < j := by
+  by_cases h : i < j
+  · exact h
+  · exfalso
+    have hji : j ≤ i := by omega
+    rcases Nat.lt_or_eq_of_le hji with hji | hji
+    · have := List.pairwise_iff_getElem.mp hs j i hj hi hji
+      exact absurd hlt (Rat.not_lt.mpr this)
+    · subst hji
+      exact absurd hlt (Rat.lt_irrefl)
+
+theorem applyRule_getElem_offset (gap thr : Rat) (col : List Row) (i : Nat) (hi : i < col.length) :
+    ((applyRule gap thr col)[i]'(by rw [applyRule_length]; exact hi)).offset = col[i].offset := by
+  have hk := applyRule_map_key gap thr col
+  have h1 : ((applyRule gap thr col).map key)[i]? = (col.map key)[i]? := by rw [hk]
+  simp only [List.getElem?_map] at h1
+  rw [List.getElem?_eq_getElem hi, List.getElem?_eq_getElem (by rw [applyRule_length]; exact hi)] at h1
+  simp only [Option.map_some, Option.some.injEq, key, Prod.mk.injEq] at h1
+  exact h1.1
+
+/-- **no_overlap**: a hold of the result ends at least `gap` before every later note of its column
+(so for `gap ≥ 0` it does not reach it, and for `gap > 0` it stays strictly before it) -/
+theorem Spec.no_overlap {gap thr : Rat} {inp out : List Row} (h : Spec gap thr inp out)
+    (a b : Row) (ha : a ∈ out) (hb : b ∈ out) (hcol : a.column = b.column) (hlt : a.offset < b.offset)
+    (l : Rat) (hl : a.length = some l) : a.offset + l + gap ≤ b.offset := by
+  obtain ⟨col, _, h2, o, h3, h4⟩ := h a.column
+  have ho := colRule_unique gap thr col o h4
+  subst ho
+  have ha' : a ∈ applyRule gap thr col := h3.mem_iff.mpr (List.mem_filter.mpr ⟨ha, by simp⟩)
+  have hb' : b ∈ applyRule gap thr col := h3.mem_iff.mpr (List.mem_filter.mpr ⟨hb, by simp [hcol]⟩)
+  obtain ⟨i, hi, hai⟩ := List.getElem_of_mem ha'
+  obtain ⟨j, hj, hbj⟩ := List.getElem_of_mem hb'
+  have hi' : i < col.length := by rw [applyRule_length] at hi; exact hi
+  have hj' : j < col.length := by rw [applyRule_length] at hj; exact hj
+  have hoi := applyRule_getElem_offset gap thr col i hi'
+  have hoj := applyRule_getElem_offset gap thr col j hj'
+  rw [hai] at hoi
+  rw [hbj] at hoj
+  have hij : i < j := sorted_index_lt h2 hi' hj' (by rw [← hoi, ← hoj]; exact hlt)
+  have hi1 : i + 1 < col.length := by omega
+  have hrule := h4.nonlast i hi1
+  rw [List.getElem?_eq_getElem hi, hai] at hrule
+  have hrule' : a = expected gap thr col[i] (col[i+1]).offset := by simpa using hrule
+  have hlen : (expected gap thr col[i] (col[i+1]).offset).length = some l := by rw [← hrule']; exact hl
+  have hex := (expected_hold hlen).1
+  have hnext : (col[i+1]).offset ≤ col[j].offset := by
+    rcases Nat.lt_or_eq_of_le (show i + 1 ≤ j by omega) with hlt' | heq
+    · exact List.pairwise_iff_getElem.mp h2 (i+1) j hi1 hj' hlt'
+    · subst heq; exact Rat.le_refl
+  rw [← hoi] at hex
+  rw [hex, hoj]
+  exact hnext
+
+/-! ### the executable check is sound for `Spec` -/
+
+theorem sortedB_sound (l : List Row) (h : sortedB l = true) : SortedByOffset l := by
+  induction l with
+  | nil => simp [SortedByOffset]
+  | cons a t ih =>
+    cases t with
+    | nil => simp [SortedByOffset]
+    | cons b t' =>
+      simp only [sortedB, Bool.and_eq_true, decide_eq_true_eq] at h
+      have ht := ih h.2
+      refine List.pairwise_cons.mpr ⟨?_, ht⟩
+      intro z hz
+      rcases List.mem_cons.mp hz with rfl | hz
+      · exact h.1
+      · exact Rat.le_trans h.1 ((List.pairwise_cons.mp ht).1 z hz)
+
+theorem colSpecB_sound (gap thr : Rat) (I O : List Row) (h : colSpecB gap thr I O = true) :
+    ∃ col, col.Perm I ∧ SortedByOffset col ∧ ∃ o, o.Perm O ∧ ColRule gap thr col o := by
+  unfold colSpecB at h
+  split at h
+  · rename_i hI
+    have hI' : I = [] := by simpa using hI
+    have hO' : O = [] := by simpa using h
+    subst hI' hO'
+    exact ⟨[], List.Perm.refl _, by simp [SortedByOffset], [], List.Perm.refl _, colRule_applyRule gap thr []⟩
+  · obtain ⟨arr, _, harr⟩ := List.any_eq_true.mp h
+    simp only [Bool.and_eq_true, List.isPerm_iff] at harr
+    exact ⟨arr, harr.1.2, sortedB_sound arr harr.1.1, applyRule gap thr arr, harr.2, colRule_applyRule gap thr arr⟩
+
+theorem mem_dedupInt (l : List Int) : ∀ c, c ∈ dedupInt l ↔ c ∈ l := by
+  induction l with
+  | nil => simp [dedupInt]
+  | cons d ds ih =>
+    intro c
+    have hstep : dedupInt (d :: ds) = if (dedupInt ds).contains d then dedupInt ds else d :: dedupInt ds := by
+      simp [dedupInt]
+    rw [hstep]
+    split
+    · rename_i hmem
+      have hd : d ∈ ds := (ih d).mp (by simpa using hmem)
+      rw [ih c]
+      constructor
+      · intro h; exact List.mem_cons_of_mem _ h
+      · intro h
+        rcases List.mem_cons.mp h with rfl | h
+        · exact hd
+        · exact h
+    · simp [ih c]
+
+/-- **`specB` is sound**: an output accepted by the executable check satisfies the statement -/
+theorem specB_sound (gap thr : Rat) (inp out : List Row) (h : specB gap thr inp out = true) :
+    Spec gap thr inp out := by
+  intro c
+  by_cases hc : c ∈ (inp ++ out).map (·.column)
+  · have := List.all_eq_true.mp h c ((mem_dedupInt _ c).mpr hc)
+    exact colSpecB_sound gap thr _ _ this
+  · have h1 : inColumn c inp = [] := by
+      simp only [inColumn, List.filter_eq_nil_iff]
+      intro r hr hrc
+      exact hc (List.mem_map.mpr ⟨r, List.mem_append_left _ hr, by simpa using hrc⟩)
+    have h2 : inColumn c out = [] := by
+      simp only [inColumn, List.filter_eq_nil_iff]
+      intro r hr hrc
+      exact hc (List.mem_map.mpr ⟨r, List.mem_append_right _ hr, by simpa using hrc⟩)
+    rw [h1, h2]
+    exact ⟨[], List.Perm.refl _, by simp [SortedByOffset], [], List.Perm.refl _, colRule_applyRule gap thr []⟩
+
+/-! ### … and complete -/
+
+theorem sortedB_complete (l : List Row) (h : SortedByOffset l) : sortedB l = true := by
+  induction l with
+  | nil => rfl
+  | cons a t ih =>
+    cases t with
+    | nil => rfl
+    | cons b t' =>
+      have hc := List.pairwise_cons.mp h
+      simp only [sortedB, Bool.and_eq_true, decide_eq_true_eq]
+      exact ⟨hc.1 b (by simp), ih hc.2⟩
+
+theorem expected_congr_key (gap thr : Rat) (a b : Row) (n : Rat) (h : key a = key b) :
+    expected gap thr a n = expected gap thr b n := by
+  cases a with
+  | mk ao ac al =>
+    cases b with
+    | mk bo bc bl =>
+      simp only [key, Prod.mk.injEq] at h
+      obtain ⟨h1, h2⟩ := h
+      subst h1 h2
+      simp [expected]
+
+/-- the rule looks at a note's time and column only, and at the whole note only for the last one -/
+theorem applyRule_append_congr (gap thr : Rat) (x : Row) :
+    ∀ (A C : List Row), A.map key = C.map key → applyRule gap thr (A ++ [x]) = applyRule gap thr (C ++ [x]) := by
+  intro A
+  induction A with
+  | nil =>
+    intro C h
+    cases C with
+    | nil => rfl
+    | cons c C' => simp at h
+  | cons a A' ih =>
+    intro C h
+    cases C with
+    | nil => simp at h
+    | cons c C' =>
+      simp only [List.map_cons, List.cons.injEq] at h
+      obtain ⟨hk, ht⟩ := h
+      cases A' with
+      | nil =>
+        cases C' with
+        | nil =>
+          simp only [List.cons_append, List.nil_append, applyRule]
+          rw [expected_congr_key gap thr a c _ hk]
+        | cons c2 C'' => simp at ht
+      | cons a2 A'' =>
+        cases C' with
+        | nil => simp at ht
+        | cons c2 C'' =>
+          have hk2 : key a2 = key c2 := by
+            simp only [List.map_cons, List.cons.injEq] at ht
+            exact ht.1
+          have ho : a2.offset = c2.offset := by
+            have := congrArg Prod.fst hk2
+            simpa [key] using this
+          have := ih (c2 :: C'') ht
+          simp only [List.cons_append, applyRule] at this ⊢
+          rw [this, ho, expected_congr_key gap thr a c _ hk]
+
+theorem sorted_keys_eq (c : Int) (A C : List Row) (hA : ∀ r ∈ A, r.column = c) (hC : ∀ r ∈ C, r.column = c)
+    (sA : SortedByOffset A) (sC : SortedByOffset C) (hp : A.Perm C) : A.map key = C.map key := by
+  apply List.Perm.eq_of_pairwise (le := fun (a b : Rat × Int) => a.1 ≤ b.1)
+  · intro a b ha hb h1 h2
+    obtain ⟨ra, hra, rfl⟩ := List.mem_map.mp ha
+    obtain ⟨rb, hrb, rfl⟩ := List.mem_map.mp hb
+    simp only [key] at h1 h2 ⊢
+    rw [hA ra hra, hC rb hrb, Rat.le_antisymm h1 h2]
+  · exact List.pairwise_map.mpr sA
+  · exact List.pairwise_map.mpr sC
+  · exact hp.map key
+
+/-- completeness of the column check: any processing order allowed by the statement is matched by a candidate -/
+theorem colSpecB_complete (gap thr : Rat) (c : Int) (I O : List Row) (hI : ∀ r ∈ I, r.column = c)
+    (h : ∃ col, col.Perm I ∧ SortedByOffset col ∧ ∃ o, o.Perm O ∧ ColRule gap thr col o) :
+    colSpecB gap thr I O = true := by
+  obtain ⟨col, h1, h2, o, h3, h4⟩ := h
+  have ho := colRule_unique gap thr col o h4
+  subst ho
+  unfold colSpecB
+  split
+  · rename_i hI'
+    have : I = [] := by simpa using hI'
+    subst this
+    have : col = [] := List.perm_nil.mp h1
+    subst this
+    have : O = [] := by
+      have := h3.symm
+      simpa [applyRule] using this
+    simp [this]
+  · rename_i hI'
+    have hIne : I ≠ [] := by simpa using hI'
+    have hcolne : col ≠ [] := by
+      intro he; subst he; exact hIne (List.perm_nil.mp h1.symm)
+    -- the last note of the given processing order
+    let x := col.getLast hcolne
+    have hsplit : col.dropLast ++ [x] = col := List.dropLast_concat_getLast hcolne
+    let s := sortByOffset I
+    have hsI : s.Perm I := sortByOffset_perm I
+    have hscol : s.Perm col := hsI.trans h1.symm
+    have hsne : s ≠ [] := by
+      intro he
+      have : col = [] := List.perm_nil.mp (he ▸ hscol).symm
+      exact hcolne this
+    have hss : SortedByOffset s := sortByOffset_sorted I
+    have hxs : x ∈ s := hscol.mem_iff.mpr (List.getLast_mem hcolne)
+    have hlast_mem : s.getLast hsne ∈ col := hscol.mem_iff.mp (List.getLast_mem hsne)
+    have hmax : x.offset = (s.getLast hsne).offset :=
+      Rat.le_antisymm (sorted_le_getLast hss hsne x hxs) (sorted_le_getLast h2 hcolne _ hlast_mem)
+    have hcand : s.erase x ++ [x] ∈ candidates I := by
+      unfold candidates
+      simp only
+      rw [List.getLast?_eq_some_getLast hsne]
+      simp only
+      refine List.mem_map.mpr ⟨x, List.mem_filter.mpr ⟨hxs, by simpa using hmax⟩, rfl⟩
+    have hperm_s : (s.erase x ++ [x]).Perm s :=
+      (List.perm_append_comm).trans (List.perm_cons_erase hxs).symm
+    have hsorted : SortedByOffset (s.erase x ++ [x]) := by
+      refine List.pairwise_append.mpr ⟨List.Pairwise.sublist List.erase_sublist hss, by simp, ?_⟩
+      intro a ha b hb
+      have hb' : b = x := by simpa using hb
+      subst hb'
+      rw [hmax]
+      exact sorted_le_getLast hss hsne a (List.erase_sublist.subset ha)
+    have hAC : (s.erase x).Perm col.dropLast := by
+      have : (s.erase x ++ [x]).Perm (col.dropLast ++ [x]) := by rw [hsplit]; exact hperm_s.trans hscol
+      exact (List.perm_append_right_iff [x]).mp this
+    have hcolc : ∀ r ∈ col, r.column = c := fun r hr => hI r (h1.mem_iff.mp hr)
+    have hkeys : (s.erase x).map key = col.dropLast.map key := by
+      apply sorted_keys_eq c
+      · intro r hr; exact hI r (hsI.mem_iff.mp (List.erase_sublist.subset hr))
+      · intro r hr; exact hcolc r (List.dropLast_subset col hr)
+      · exact List.Pairwise.sublist List.erase_sublist hss
+      · exact List.Pairwise.sublist (List.dropLast_sublist col) h2
+      · exact hAC
+    have happly : applyRule gap thr (s.erase x ++ [x]) = applyRule gap thr col := by
+      rw [← hsplit]
+      exact applyRule_append_congr gap thr x _ _ hkeys
+    refine List.any_eq_true.mpr ⟨s.erase x ++ [x], hcand, ?_⟩
+    simp only [Bool.and_eq_true, List.isPerm_iff]
+    exact ⟨⟨sortedB_complete _ hsorted, hperm_s.trans hsI⟩, happly ▸ h3⟩
+
+/-- **`specB` is complete**: every output the statement allows is accepted (no false alarm from the check) -/
+theorem specB_complete (gap thr : Rat) (inp out : List Row) (h : Spec gap thr inp out) :
+    specB gap thr inp out = true := by
+  unfold specB
+  rw [List.all_eq_true]
+  intro c _
+  refine colSpecB_complete gap thr c (inColumn c inp) (inColumn c out) ?_ (h c)
+  intro r hr
+  simpa [inColumn] using (List.mem_filter.mp hr).2
+
+/-- the executable check evaluated on the implementation's output IS the statement -/
+theorem specB_iff (gap thr : Rat) (inp out : List Row) : specB gap thr inp out = true ↔ Spec gap thr inp out :=
+  ⟨specB_sound gap thr inp out, specB_complete gap thr inp out⟩
+
+/-! ### how much the order of stacked notes matters -/
+
+theorem columnsOf_perm_eq (l₁ l₂ : List Row) (h : l₁.Perm l₂) : columnsOf l₁ = columnsOf l₂ := by
+  apply List.Perm.eq_of_pairwise (le := fun (a b : Int) => a < b)
+  · intro a b _ _ h1 h2; omega
+  · exact columnsOf_sorted l₁
+  · exact columnsOf_sorted l₂
+  · rw [List.perm_ext_iff_of_nodup (columnsOf_nodup l₁) (columnsOf_nodup l₂)]
+    intro c
+    rw [mem_columnsOf, mem_columnsOf]
+    constructor
+    · rintro ⟨r, hr, hc⟩; exact ⟨r, h.mem_iff.mp hr, hc⟩
+    · rintro ⟨r, hr, hc⟩; exact ⟨r, h.mem_iff.mpr hr, hc⟩
+
+/-- two ascending arrangements of the same column that end with the same note give the same output -/
+theorem applyRule_eq_of_same_last (gap thr : Rat) (c : Int) (g₁ g₂ : List Row)
+    (hc : ∀ r ∈ g₁, r.column = c) (hp : g₁.Perm g₂) (s₁ : SortedByOffset g₁) (s₂ : SortedByOffset g₂)
+    (hl : g₁.getLast? = g₂.getLast?) : applyRule gap thr g₁ = applyRule gap thr g₂ := by
+  by_cases hne : g₁ = []
+  · subst hne
+    have : g₂ = [] := List.perm_nil.mp hp.symm
+    subst this; rfl
+  · have hne2 : g₂ ≠ [] := by
+      intro he; subst he; exact hne (List.perm_nil.mp hp)
+    have e1 := List.dropLast_concat_getLast hne
+    have e2 := List.dropLast_concat_getLast hne2
+    have hx : g₁.getLast hne = g₂.getLast hne2 := by
+      rw [List.getLast?_eq_some_getLast hne, List.getLast?_eq_some_getLast hne2] at hl
+      exact Option.some.inj hl
+    rw [← e1, ← e2, hx]
+    apply applyRule_append_congr
+    have hc2 : ∀ r ∈ g₂, r.column = c := fun r hr => hc r (hp.mem_iff.mpr hr)
+    apply sorted_keys_eq c
+    · intro r hr; exact hc r (List.dropLast_subset g₁ hr)
+    · intro r hr; exact hc2 r (List.dropLast_subset g₂ hr)
+    · exact List.Pairwise.sublist (List.dropLast_sublist g₁) s₁
+    · exact List.Pairwise.sublist (List.dropLast_sublist g₂) s₂
+    · have : (g₁.dropLast ++ [g₂.getLast hne2]).Perm (g₂.dropLast ++ [g₂.getLast hne2]) := by
+        rw [e2, ← hx, e1]; exact hp
+      exact (List.perm_append_right_iff _).mp this
+
+/-- **tie order**: whatever ascending permutation the sort returns, the produced rows depend on it only
+through which of the notes stacked at the end of each column comes last — two sorted arrangements of the
+same frame with the same last note in every column give literally the same rows. -/
+theorem fullLnRows_eq_of_same_last (gap thr : Rat) (arr₁ arr₂ : List Row) (hp : arr₁.Perm arr₂)
+    (s₁ : SortedByOffset arr₁) (s₂ : SortedByOffset arr₂)
+    (hl : ∀ c, (inColumn c arr₁).getLast? = (inColumn c arr₂).getLast?) :
+    fullLnRows gap thr arr₁ = fullLnRows gap thr arr₂ := by
+  unfold fullLnRows groups
+  rw [columnsOf_perm_eq arr₁ arr₂ hp]
+  congr 1
+  rw [List.map_map, List.map_map]
+  apply List.map_congr_left
+  intro c _
+  simp only [Function.comp, processGroup_eq_applyRule, group_eq_inColumn]
+  apply applyRule_eq_of_same_last gap thr c
+  · intro r hr; simpa [inColumn] using (List.mem_filter.mp hr).2
+  · exact hp.filter _
+  · exact List.Pairwise.filter _ s₁
+  · exact List.Pairwise.filter _ s₂
+  · exact hl c
+
+/-- non-vacuity: two orders of a stacked pair that is not at the end of its column -/
+example : ([⟨0, 0, none⟩, ⟨0, 0, some 5⟩, ⟨10, 0, none⟩] : List Row).Perm [⟨0, 0, some 5⟩, ⟨0, 0, none⟩, ⟨10, 0, none⟩] ∧
+    SortedByOffset [⟨0, 0, none⟩, ⟨0, 0, some 5⟩, ⟨10, 0, none⟩] ∧
+    SortedByOffset [⟨0, 0, some 5⟩, ⟨0, 0, none⟩, ⟨10, 0, none⟩] ∧
+    ∀ c, (inColumn c [⟨0, 0, none⟩, ⟨0, 0, some 5⟩, ⟨10, 0, none⟩]).getLast? =
+      (inColumn c [⟨0, 0, some 5⟩, ⟨0, 0, none⟩, ⟨10, 0, none⟩]).getLast? := by
+  refine ⟨List.Perm.swap _ _ _, sortedB_sound _ (by decide +kernel), sortedB_sound _ (by decide +kernel), ?_⟩
+  intro c
+  by_cases h : (0 : Int) = c
+  · subst h; decide +kernel
+  · simp [inColumn, h]
+
+/-! ### the chart-level statement -/
+
+theorem fromDict_ok (sc : Bool) (rows : List Row) (h : sc = true ∨ rows = []) : fromDict sc rows = .ok rows := by
+  unfold fromDict
+  rcases h with h | h
+  · subst h
+    cases rows <;> simp
+  · subst h
+    simp
+
+theorem asHit_of_isHit (r : Row) (h : isHit r = true) : asHit r = r := by
+  cases r with
+  | mk o c l =>
+    have : l = none := by simpa [isHit] using h
+    subst this
+    rfl
+
+theorem notes_result_perm (rows : List Row) :
+    (((rows.filter isHit).map asHit) ++ rows.filter (fun r => !isHit r)).Perm rows := by
+  have h1 : (rows.filter isHit).map asHit = (rows.filter isHit).map id :=
+    List.map_congr_left (fun r hr => asHit_of_isHit r (List.mem_filter.mp hr).2)
+  rw [h1, List.map_id]
+  exact List.filter_append_perm isHit rows
+
+theorem fullLnRows_nil (gap thr : Rat) : fullLnRows gap thr [] = [] := by
+  simp [fullLnRows, groups, columnsOf]
+
+/-- when `from_dict` can build the lists (scalar defaults, or nothing to build), `full_ln` returns the chart
+with `hits` / `holds` replaced by the produced rows and everything else as it was -/
+theorem fullLnWith_ok {α} (sortF : List Row → List Row) (hs : SortsByOffset sortF) (scalar : Bool)
+    (gap thr : Rat) (m : MapM α) (hsc : scalar = true ∨ stacked m = []) :
+    fullLnWith sortF scalar gap thr m = .ok { m with
+      hits := (fullLnRows gap thr (sortF (stacked m))).filter isHit,
+      holds := (fullLnRows gap thr (sortF (stacked m))).filter (fun r => !isHit r) } := by
+  have hrows : scalar = true ∨ fullLnRows gap thr (sortF (stacked m)) = [] := by
+    rcases hsc with h | h
+    · exact Or.inl h
+    · right
+      have : sortF (stacked m) = [] := by
+        have hp := hs.perm (stacked m)
+        rw [h] at hp ⊢
+        exact List.perm_nil.mp hp
+      rw [this, fullLnRows_nil]
+  have e1 := fromDict_ok scalar ((fullLnRows gap thr (sortF (stacked m))).filter isHit)
+    (hrows.imp id (fun h => by rw [h]; rfl))
+  have e2 := fromDict_ok scalar ((fullLnRows gap thr (sortF (stacked m))).filter (fun r => !isHit r))
+    (hrows.imp id (fun h => by rw [h]; rfl))
+  simp only [fullLnWith, e1, e2]
+
+/-- **Main theorem.** For every sorting function `sort_values` may be, every `gap` and threshold, and every
+chart whose only HitList/HoldList-typed lists are `hits` and `holds` (else: D23) and whose lists `from_dict`
+can build (else: D24): `full_ln` returns a chart whose notes satisfy the statement `Spec` with respect to
+the input's notes, and whose tempo and other lists are the input's (**others_unchanged**). -/
+theorem fullLn_spec {α} (sortF : List Row → List Row) (hs : SortsByOffset sortF) (scalar : Bool)
+    (gap thr : Rat) (m : MapM α) (hex : m.extras = []) (hsc : scalar = true ∨ stacked m = []) :
+    ∃ m', fullLnWith sortF scalar gap thr m = .ok m' ∧ Spec gap thr (notes m) (notes m') ∧
+      m'.others = m.others ∧ m'.extras = m.extras := by
+  refine ⟨_, fullLnWith_ok sortF hs scalar gap thr m hsc, ?_, rfl, rfl⟩
+  have hrows := fullLnRows_spec gap thr (stacked m) (sortF (stacked m)) (hs.perm _) (hs.sorted _)
+  show Spec gap thr (stacked m) _
+  apply Spec.of_perm_out hrows
+  simp only [notes, hex, List.nil_append]
+  exact notes_result_perm _
+
+/-- the same for the model's own stable sort (what the driver runs) -/
+theorem fullLn_spec_stable {α} (scalar : Bool) (gap thr : Rat) (m : MapM α) (hex : m.extras = [])
+    (hsc : scalar = true ∨ stacked m = []) :
+    ∃ m', fullLn scalar gap thr m = .ok m' ∧ Spec gap thr (notes m) (notes m') ∧
+      m'.others = m.others ∧ m'.extras = m.extras :=
+  fullLn_spec sortByOffset sortByOffset_sorts scalar gap thr m hex hsc
+
+/-- **others_unchanged**, unconditionally: whenever `full_ln` returns, tempo/other lists and the further
+note lists are the input's -/
+theorem fullLnWith_others {α} (sortF : List Row → List Row) (scalar : Bool) (gap thr : Rat) (m m' : MapM α)
+    (h : fullLnWith sortF scalar gap thr m = .ok m') : m'.others = m.others ∧ m'.extras = m.extras := by
+  unfold fullLnWith at h
+  simp only at h
+  split at h
+  · cases h
+  · split at h
+    · cases h
+    · cases h
+      exact ⟨rfl, rfl⟩
+
+/-! ### what the two hypotheses exclude (known findings D24, D23) -/
+
+/-- D24: with a list-valued declared default (`scalarDefaults = false`: Quaver's `keysounds = []`) `full_ln`
+raises `ValueError` for EVERY chart that has a note -/
+theorem fullLnWith_raises {α} (sortF : List Row → List Row) (hs : SortsByOffset sortF) (gap thr : Rat)
+    (m : MapM α) (hne : stacked m ≠ []) : fullLnWith sortF false gap thr m = .error .value := by
+  have hspec := fullLnRows_spec gap thr (stacked m) (sortF (stacked m)) (hs.perm _) (hs.sorted _)
+  have hlen := hspec.length_eq
+  have hperm := List.filter_append_perm isHit (fullLnRows gap thr (sortF (stacked m)))
+  have hl2 := hperm.length_eq
+  have hpos : 0 < (stacked m).length := List.length_pos_iff.mpr hne
+  unfold fullLnWith
+  simp only
+  cases hh : (fullLnRows gap thr (sortF (stacked m))).filter isHit with
+  | cons a t => simp [fromDict]
+  | nil =>
+    rw [hh] at hl2
+    cases hd : (fullLnRows gap thr (sortF (stacked m))).filter (fun r => !isHit r) with
+    | cons a t => simp [fromDict]
+    | nil =>
+      rw [hd] at hl2
+      simp at hl2
+      omega
+
+/-- the chart of the D23 witness: hits at 0 and 1000 and a mine at 500, all in column 0 -/
+def d23Chart : MapM Unit := ⟨[⟨500, 0, none⟩], [⟨0, 0, none⟩, ⟨1000, 0, none⟩], [], ()⟩
+
+/-- D23: with a further HitList-typed list (a StepMania mine) the result has one note too many — the mine is
+stacked, becomes a hold, and stays a mine: the statement fails -/
+theorem extras_counterexample :
+    d23Chart.extras ≠ [] ∧ ∃ m', fullLn true 150 100 d23Chart = .ok m' ∧ (notes m').length = 4 ∧
+      (notes d23Chart).length = 3 ∧ ¬ Spec 150 100 (notes d23Chart) (notes m') := by
+  refine ⟨by decide, ?_⟩
+  have hok := fullLnWith_ok sortByOffset sortByOffset_sorts true 150 100 d23Chart (Or.inl rfl)
+  refine ⟨_, hok, ?_, by decide, ?_⟩
+  · decide +kernel
+  · intro hspec
+    have h1 := hspec.length_eq
+    revert h1
+    decide +kernel
+
+/-! ### non-vacuity: concrete instances of the hypotheses and of the statements -/
+
+/-- a chart inside the hypotheses of `fullLn_spec` (two keys, a chord, a stacked pair at the end of column 0) -/
+def exChart : MapM Unit :=
+  ⟨[], [⟨0, 0, none⟩, ⟨250, 0, none⟩, ⟨0, 1, none⟩, ⟨600, 0, none⟩], [⟨600, 0, some 40⟩, ⟨249, 1, some 500⟩], ()⟩
+
+example : exChart.extras = [] ∧ ((true = true) ∨ stacked exChart = []) := ⟨rfl, Or.inl rfl⟩
+
+/-- column 0: 0 → hold 100 (250-0-150 = 100 ≥ 100), 250 → hold 200, then the stacked pair at 600: the first
+of them gets 0-150 < 100 → hit, the last keeps kind and length; column 1: 249-0-150 = 99 < 100 → hit -/
+example : (fullLn true 150 100 exChart).toOption.map (fun m => (m.hits, m.holds)) =
+    some ([⟨600, 0, none⟩, ⟨0, 1, none⟩], [⟨0, 0, some 100⟩, ⟨250, 0, some 200⟩, ⟨600, 0, some 40⟩, ⟨249, 1, some 500⟩]) := by
+  decide +kernel
+
+/-- the executable specification accepts that output, and the other tie order as well … -/
+example : specB 150 100 (notes exChart)
+    [⟨600, 0, none⟩, ⟨0, 1, none⟩, ⟨0, 0, some 100⟩, ⟨250, 0, some 200⟩, ⟨600, 0, some 40⟩, ⟨249, 1, some 500⟩] = true := by
+  decide +kernel
+example : specB 150 100 (notes exChart)
+    [⟨600, 0, none⟩, ⟨0, 1, none⟩, ⟨0, 0, some 100⟩, ⟨250, 0, some 200⟩, ⟨600, 0, none⟩, ⟨249, 1, some 500⟩] = true := by
+  decide +kernel
+/-- … but not a wrong length, a lost note, or a changed last note -/
+example : specB 150 100 (notes exChart)
+    [⟨600, 0, none⟩, ⟨0, 1, none⟩, ⟨0, 0, some 101⟩, ⟨250, 0, some 200⟩, ⟨600, 0, some 40⟩, ⟨249, 1, some 500⟩] = false := by
+  decide +kernel
+example : specB 150 100 (notes exChart)
+    [⟨0, 1, none⟩, ⟨0, 0, some 100⟩, ⟨250, 0, some 200⟩, ⟨600, 0, some 40⟩, ⟨249, 1, some 500⟩] = false := by
+  decide +kernel
+example : specB 150 100 (notes exChart)
+    [⟨600, 0, none⟩, ⟨0, 1, none⟩, ⟨0, 0, some 100⟩, ⟨250, 0, some 200⟩, ⟨600, 0, some 40⟩, ⟨249, 1, some 499⟩] = false := by
+  decide +kernel
+
+/-- hypotheses of `Spec.no_overlap` / `Spec.last_kept` are satisfiable: the hold at 250 and the later note at 600 -/
+example : ∃ out, Spec 150 100 (notes exChart) out ∧ (⟨250, 0, some 200⟩ : Row) ∈ out ∧ (⟨600, 0, none⟩ : Row) ∈ out ∧
+    inColumn 0 (notes exChart) ≠ [] :=
+  ⟨_, specB_sound 150 100 (notes exChart)
+    [⟨600, 0, none⟩, ⟨0, 1, none⟩, ⟨0, 0, some 100⟩, ⟨250, 0, some 200⟩, ⟨600, 0, some 40⟩, ⟨249, 1, some 500⟩]
+    (by decide +kernel), by decide, by decide, by decide +kernel⟩
+
+/-- `fullLnWith_raises` is not vacuous: a one-note Quaver chart -/
+example : stacked (⟨[], [⟨0, 0, none⟩], [], ()⟩ : MapM Unit) ≠ [] := by decide
+
+end Reamber.FullLN
